@@ -9,8 +9,10 @@ pub mod c02;
 pub mod c03;
 pub mod c04;
 pub mod c05;
+pub mod c06;
 pub mod c07;
 pub mod c08;
+pub mod c09;
 pub mod c10;
 pub mod c11;
 pub mod c12;
@@ -62,8 +64,10 @@ pub fn check(case: &Case, out: &RunOutput) -> Verdict {
         Family::C03 => c03::check(&v, &mut vd),
         Family::C04 => c04::check(&v, &mut vd),
         Family::C05 => c05::check(&v, &mut vd),
+        Family::C06 => c06::check(&v, &mut vd),
         Family::C07 => c07::check(&v, &mut vd),
         Family::C08 => c08::check(&v, &mut vd),
+        Family::C09 => c09::check(&v, &mut vd),
         Family::C10 => c10::check(&v, &mut vd),
         Family::C11 => c11::check(&v, &mut vd),
         Family::C12 => c12::check(&v, &mut vd),
@@ -72,7 +76,6 @@ pub fn check(case: &Case, out: &RunOutput) -> Verdict {
         Family::C15 => c15::check(&v, &mut vd),
         Family::C16 => c16::check(&v, &mut vd),
         Family::C17 => c17::check(&v, &mut vd),
-        _ => {}
     }
     vd
 }
